@@ -134,7 +134,7 @@ fn run_buckets(a: &Args) -> Report {
     rep
 }
 
-const MNAMES: &[&str] = &["a", "ab", "abc", "a_b", "http_request_seconds", "http_", "_seconds", "x.y", "x_y", "seconds", "http_request", "é", ""];
+const MNAMES: &[&str] = &["a", "ab", "abc", "a_b", "http_request_seconds", "http_", "_seconds", "x.y", "x_y", "seconds", "http_request", "é", "", "job:lat", "job:"];
 
 fn run_matchers(a: &Args) -> Report {
     let mut rep = Report::new("C15", &a.leg, a.seed);
@@ -228,7 +228,7 @@ fn run_exposed(a: &Args) -> Report {
     let mut rep = Report::new("C15", &a.leg, a.seed);
     let mut r = Rng::new(a.shard_seed());
     let n = a.budget(4_000, 400_000);
-    const NAMES: &[&str] = &["a", "ab", "abc", "a_b", "http_request", "http_request_seconds", "lat_ms", "x.y", "req_bytes", "seconds", "é1"];
+    const NAMES: &[&str] = &["a", "ab", "abc", "a_b", "http_request", "http_request_seconds", "lat_ms", "x.y", "req_bytes", "seconds", "é1", "job:lat", "node:cpu.ms"];
     const PATS: &[&str] = &["a", "ab", "http_", "_seconds", "seconds", "_ms", "_bytes", "bytes", "x_y", "http_request", "req", "lat_ms"];
     for _ in 0..n {
         let mut list: Vec<(u8, String, f64)> = Vec::new();
